@@ -411,6 +411,7 @@ class TheCheck(Check):
             self.violation("build", "build-failure", str(e)[:2000], {"error": str(e)[:4000]})
             return self.decide()
         self.explore()
+        self.long_hold(impl_dir)
         if self.tier == "thorough":
             self.stress()
         return self.decide()
@@ -508,8 +509,27 @@ class TheCheck(Check):
                           "exhaustive": not truncated}
         self.exhaustive_note = not truncated
 
+    def long_hold(self, impl_dir):
+        """T0 holds the lock (two locked walks) across 1 and 3 (thorough: up to 8) waiter time-outs of
+        Q_MUTEX_ENTER while T1 calls a mutating operation: mutual exclusion must survive the time-out path"""
+        lines = lc.hold_scenarios(self.tier)
+        res = lc.run_hold(impl_dir, lines)
+        self.evals += len(res)
+        self.cov["streams"]["long-hold"] = {"ops": len(res), "forced_unlock_attempts_seen": sum(int(r.get("forced", 0) or 0) for _, r, _ in res)}
+        seen = set()
+        for line, r, raw in res:
+            self.nontrivial.add(("hold", line, r.get("forced"), r.get("walk2"), r.get("t1_done_in_hold")))
+            j = lc.judge_hold_c13(line, r)
+            if j:
+                key = "long-hold:" + dict(x.split("=") for x in line.split()[1:]).get("kind", "?")
+                if len(seen) < 3 and key not in seen:
+                    seen.add(key)
+                    self.violation("property", key, j, {"stream": "long-hold", "ops": [line], "first_bad_op": line, "impl_line": raw})
+
     # ---------------------------------------------------------------- oracle
     def judge(self, op, line):
+        if op.startswith("hold "):
+            return lc.judge_hold_c13(op, lc.parse_result(line))
         kind, init, opt, progs = parse_prog(op)
         d, opres = parse_out(line)
         if d.get("status") == "deadlock":
@@ -588,6 +608,14 @@ class TheCheck(Check):
                     print("    unlocked accesses:", "; ".join(c.describe(i) for i in c.unlocked_accesses(self.lock.immutable)[:6]))
             return 0 if ok else 1
         impl_dir = vlib.build_impl("plain")
+        if ops and ops[0].startswith("hold "):
+            bad = False
+            for line, r, raw in lc.run_hold(impl_dir, ops):
+                j = lc.judge_hold_c13(line, r)
+                print("%s %s\n     impl  : %s\n     model : walk1 = walk2, the waiter finishes only after unlock (Props.C13.lockedWalk_snapshot)%s" % (
+                    "!!" if j else "  ", line, raw, ("\n     oracle: " + j) if j else ""))
+                bad |= bool(j)
+            return 1 if bad else 0
         hbin = vlib.build_harness(self.harness, impl_dir, "plain", self.wraps)
         ops = [o for o in ops if "free=1" not in o]
         out, rc, err = vlib.run_proc([hbin], "\n".join(ops) + "\n")
